@@ -113,6 +113,10 @@ def run(ctx):
             if "cap(" in (u["cap"] or "") and any(p["name"] in u["cap"] for p in f.params if ptr(p)):
                 r1.violation(u["key"], "write into a caller-supplied buffer cannot be bounded: %s <= %s not provable in %s"
                              % (u["size"], u["cap"], f.name), loc=u["loc"])
+            elif "/tp/" in f.file and f.file.endswith(".c") and "xcm_tp_" in f.file:
+                # an internal buffer of a transport's getter path (the peer chooses what getpeername/getsockname return)
+                r1.violation(u["key"], "attribute getter path: write into an internal buffer not provably within bounds: %s <= %s (in %s)"
+                             % (u["size"], u["cap"], f.name), loc=u["loc"])
             else:
                 r1.note("outside the claimed scope (internal buffer), unproved: %s %s <= %s at %s" % (u["key"], u["size"], u["cap"], u["loc"]))
     st = eng.stats
